@@ -13,8 +13,8 @@ with open(os.path.join(core.SPEC, "dev_flags.json")) as _f:
     DEV = json.load(_f)
 
 
-def R(kind, u, s=""):
-    return dict(kind=kind, u=u, s=s)
+def R(kind, u, s="", shape=""):
+    return dict(kind=kind, u=u, s=s, shape=shape)
 
 
 MIXES = {
@@ -29,9 +29,15 @@ MIXES = {
     "upd_upd_diff": ([R("update", "1", "s1"), R("update", "2", "s2")], [R("", "1", "s1"), R("", "2", "s2")]),
     "upd_rel_diff": ([R("update", "1", "s1"), R("release", "2", "s2")], [R("", "1", "s1"), R("", "2", "s2")]),
     "rel_cre": ([R("release", "1", "s1"), R("create", "1")], [R("", "1", "s1")]),
+    # the release of the subscriber's only session, carrying no usage (nothing stays reserved), while a create is in flight
+    "rel_cre_plain": ([R("release", "1", "s1", "plain"), R("create", "1")], [R("", "1", "s1")]),
+    # two recharges of one subscriber for different rating groups (for a recharge the session field names the rating group)
+    "rech_rech": ([R("recharge", "1", "1"), R("recharge", "1", "2")], [R("", "1", "s1")]),
+    "rech_rech_upd": ([R("recharge", "1", "1"), R("recharge", "1", "2"), R("update", "1", "s1")], [R("", "1", "s1")]),
     "upd_rel_cre": ([R("update", "1", "s1"), R("release", "1", "s1"), R("create", "1")], [R("", "1", "s1")]),
 }
-QUICK = ["upd_upd", "upd_rel", "upd_rech", "cre_cre_same", "cre_cre_diff", "cre_upd", "rel_cre", "upd_upd_diff", "upd_rel_diff"]
+QUICK = ["upd_upd", "upd_rel", "upd_rech", "cre_cre_same", "cre_cre_diff", "cre_upd", "rel_cre", "upd_upd_diff", "upd_rel_diff",
+         "rel_cre_plain", "rech_rech"]
 
 
 def tla_req(r):
@@ -108,7 +114,7 @@ def check(pid, tier, replay=None):
         ef = open(errp, "w")
         env = dict(os.environ, GORACE="halt_on_error=0 exitcode=0", VF_TMP=sc.path("tmp"))
         os.makedirs(sc.path("tmp"), exist_ok=True)
-        procs.append((subprocess.Popen([race_bin, "conc", "8%03d" % j, inp, outp], stdout=subprocess.DEVNULL, stderr=ef, env=env), ef, c, outp, errp))
+        procs.append((subprocess.Popen([race_bin, "conc", "%d%03d" % (core.slot(), 900 + j), inp, outp], stdout=subprocess.DEVNULL, stderr=ef, env=env), ef, c, outp, errp))
     t0 = time.time()
     for p, ef, c, outp, errp in procs:
         try:
